@@ -337,6 +337,41 @@ pub fn partitions(ctx: &Ctx) -> Report {
     })
 }
 
+/// Long bursts: one search answered with thousands of small messages, written at once or in pieces.
+/// What the client receives may not depend on how fast the bytes arrive relative to the reader
+/// (a queue between driver and stream that overflows would make it so).
+pub fn bursts(ctx: &Ctx) -> Report {
+    let n = ctx.n(24, 3000);
+    par_cases(ctx, "bursts", n, ctx.secs(30, 600), |i, rng, rep| {
+        let count = if ctx.tiny { 40 } else { 1100 + rng.usize(5000) };
+        let mut plan = vec![];
+        for k in 0..count {
+            let r = match rng.below(12) {
+                0 => Resp::Reference(vec![format!("ldap://r{}/", k)]),
+                1 => Resp::Intermediate { name: Some(format!("1.2.3.{}", k)), value: None },
+                _ => Resp::Entry { dn: format!("e={}", k).into_bytes(), attrs: vec![] },
+            };
+            plan.push((r, None));
+        }
+        let mut msgs: Vec<Vec<u8>> = plan.iter().map(|(r, c)| encode(rng, 1, r, c)).collect();
+        msgs.push(ber::encode_min(&resp_node(1, &Resp::Done(Res::ok("done")), None)));
+        let expect = expected_items(&plan);
+        let total: usize = msgs.iter().map(|m| m.len()).sum();
+        let replay = json!({"lane":"bursts","case":i});
+        let parts = [Partition::Single, Partition::Fixed(*rng.pick(&[701usize, 8192, 65536])), Partition::Random];
+        for p in &parts {
+            deliver(&msgs, &expect, p, rng, rep, &replay, ":long-burst");
+        }
+        rep.max("max_messages_in_one_burst", count as u64);
+        rep.max("max_total_bytes", total as u64);
+        rep.count("messages_delivered", (msgs.len() * parts.len()) as u64);
+        if i < 1 {
+            rep.sample(json!({"lane":"bursts","case":i,"messages":msgs.len(),"total_bytes":total,"partitions":parts.iter().map(short).collect::<Vec<_>>()}));
+        }
+        rep.case(Some(fnv(&msgs.concat()[..4096.min(total)]) ^ total as u64));
+    })
+}
+
 /// Every single split point (and, for short sequences, every pair) of a sequence's byte stream.
 pub fn exhaustive_splits(ctx: &Ctx) -> Report {
     let n = ctx.n(400, 100_000);
